@@ -170,16 +170,31 @@ Example c13_s5_swap_observation :
     rown r0 = 0 /\ rown r1 = 0 /\ rexec r1 = 1 /\ rexec r0 = 0 /\ quiescent s = true.
 Proof. do 5 eexists. vm_compute. repeat split. Qed.
 
-(* The same run with the Impl found in the current source (read by the translator): *)
+(* Decided at the rule found in the source (gen/Gen_ready_c13.c13_impl_swaps_executor, read from PromiseType::Impl on every
+   run): an inline resumption gives the coroutine the executor of the core that completed AND leaves that core's executor
+   as it was, so every coroutine resumed from one shared state inherits the same executor and the awaited future is not
+   changed.  With the swap (`_executor = std::move(caller._executor)`) neither holds: this theorem and the example
+   below stop compiling, and c13_s5_swap_observation above is the witness. *)
+Theorem c13_handover_keeps_awaited_executor :
+  forall c o s co ob, nth_error (cos s) c = Some co -> nth_error (objs s) o = Some ob ->
+  exists co' ob', nth_error (cos (swap_exec c13_impl_swaps_executor c o s)) c = Some co' /\
+                  nth_error (objs (swap_exec c13_impl_swaps_executor c o s)) o = Some ob' /\
+                  cexec co' = oexec ob /\ oexec ob' = oexec ob /\
+                  (forall o1, o1 <> o -> nth_error (objs (swap_exec c13_impl_swaps_executor c o s)) o1 = nth_error (objs s) o1).
+Proof. exact handover_keeps_awaited_executor. Qed.
+Print Assumptions c13_handover_keeps_awaited_executor.
+
+(* The same run as above at the rule of the current source: both coroutines continue with the shared state's executor
+   (1), and the state still has it. *)
 Example c13_s5_current_source :
-  exists s c0 c1 r0 r1,
+  exists s c0 c1 r0 r1 ob,
     run (init [OX true false 1; OC false false 0; OC false false 1] [CO [PCo 0 false] 1; CO [PCo 0 false] 2] 2)
         [ESpawn 0 0; EBegin 0 0; ELd 0 0 OE; ELd 0 0 OE; ECas 0 0 true; ESpawn 0 1; EBegin 0 1; ELd 0 0 OL; ELd 0 0 OL;
          ECas 0 0 true; ESet 0 0 (RVal 7); EXchg 0 0; ERes 0 1; ERet 0 1 (RVal 101); ELocal 0 1; EXchg 0 2; ERes 0 0;
          ERet 0 0 (RVal 100); ELocal 0 0; EXchg 0 1; EFree 0 0; EFree 0 1] = Some s /\
     nth_error (cos s) 0 = Some c0 /\ nth_error (cos s) 1 = Some c1 /\ resumes c0 = [r0] /\ resumes c1 = [r1] /\
-    rexec r1 = 1 /\ rexec r0 = (if c13_impl_swaps_executor then 0 else 1) /\ quiescent s = true.
-Proof. do 5 eexists. vm_compute. repeat split. Qed.
+    rexec r1 = 1 /\ rexec r0 = 1 /\ nth_error (objs s) 0 = Some ob /\ oexec ob = 1 /\ quiescent s = true.
+Proof. do 6 eexists. vm_compute. repeat split. Qed.
 
 (* Non-vacuity: complete runs of the real implementation (FIBER backend), replayed. *)
 Example c13_witness_future_resumed_by_producer :
